@@ -392,6 +392,52 @@ def run_task(task):
             'nfindings': len(findings)}
 
 
+def run_sweep(task):
+    """Single-stall enumeration over one small admission storm: every thread (table manager,
+    connection threads, requesters) frozen at every one of its synchronisation operations until
+    everything else has come to rest -- e.g. a rejected connection thread that outlives the 1 s
+    grace, an accepted one that is slow to reach the rendezvous, the main thread held between
+    start() and wait()."""
+    props = tuple(task['props'])
+    rng = random.Random(f's2sweep/{task["seed"]}')
+    st = s1.new_stats()
+    findings = []
+    scn = gen_s2(rng, rng.choice((4, 5, 6)))
+    scn['script'] = gen.gen_script(rng, scn['boards'], style='allpass')
+    base = session.default_sched()
+    base['label'] = 'fifo'
+    info, sample, _ = run_one(scn, base, props, st, findings, 's2sweep:fifo')
+    points = 0
+    if not findings:
+        for role in info['roles']:
+            if role == 'director':
+                continue
+            for idx in range(info['nstable'].get(role, 0)):
+                sched = dict(base)
+                sched['stalls'] = [{'role': role, 'index': idx, 'duration': None,
+                                    'after_kind': None, 'after_n': None, 'after_obj': None}]
+                sched['label'] = 'fifo+stall'
+                s1.set_budgets(sched, info)
+                run_one(scn, sched, props, st, findings, 's2sweep:stall')
+                points += 1
+                if len(findings) > 20:
+                    break
+            if len(findings) > 20:
+                break
+    st['exhaustive'] = {'requests': len(scn['requests']), 'stall_points_enumerated': points,
+                        'threads': len(info['roles']),
+                        'what': 'one admission storm: every (thread, synchronisation operation) '
+                                'of the fault-free run, that thread frozen there until all else '
+                                'has quiesced'}
+    seen = set()
+    keep = []
+    for f in findings:
+        if f['key'] not in seen:
+            seen.add(f['key'])
+            keep.append(f)
+    return {'stats': st, 'findings': keep[:10], 'samples': [sample], 'nfindings': len(findings)}
+
+
 def run_plan(plan, prop):
     st = s1.new_stats()
     findings = []
